@@ -37,6 +37,20 @@ pub fn check_colour(
     result_slice: u64,
     c: u64,
 ) -> Result<(), Failure> {
+    check_colour_ctx(prefix, case, net, text, result_slice, c, false)
+}
+
+/// `extended`: evaluate through the extended entry point, with every context set of the case
+/// restricted to colour `c` (on the instantiated network there is only that colour).
+pub fn check_colour_ctx(
+    prefix: &str,
+    case: &SemCase,
+    net: &Net,
+    text: &str,
+    result_slice: u64,
+    c: u64,
+    extended: bool,
+) -> Result<(), Failure> {
     let witness = match guard(|| net.graph.pick_witness(&colour_set(net, c))) {
         Ok(w) => w,
         Err(p) => harness_error(&format!("pick_witness panicked (harness/library issue): {p}")),
@@ -48,7 +62,40 @@ pub fn check_colour(
     if g2.symbolic_context().num_parameter_variables() != 0 {
         harness_error("witness network still has parameters");
     }
-    let r2 = match guard(|| model_check_formula_dirty(text, &g2)) {
+    let ctx2: biodivine_hctl_model_checker::evaluation::LabelToSetMap = if extended {
+        // the witness network as a `Net` of its own (one colour), to build the sliced context sets
+        let wnet = match Net::from_bn(witness.clone(), witness.to_string(), net.k) {
+            Ok(n) => n,
+            Err(e) => harness_error(&format!("witness network not usable: {e:?}")),
+        };
+        if wnet.num_colours() != 1 || wnet.var_names != net.var_names {
+            harness_error("witness network is not a single-colour network over the same variables");
+        }
+        case.context
+            .iter()
+            .map(|(label, sets)| {
+                let slice = sets.get(c as usize).copied().unwrap_or(0);
+                // same symbolic context as g2 (built the same way from the same network)
+                (label.clone(), wnet.mk_set(&move |_| slice, true))
+            })
+            .map(|(l, set)| {
+                let bdd = g2
+                    .symbolic_context()
+                    .transfer_from(set.as_bdd(), wnet.graph.symbolic_context())
+                    .unwrap_or_else(|| harness_error("cannot transfer a context set to the witness graph"));
+                (l, biodivine_lib_param_bn::symbolic_async_graph::GraphColoredVertices::new(bdd, g2.symbolic_context()))
+            })
+            .collect()
+    } else {
+        Default::default()
+    };
+    let r2 = match guard(|| {
+        if extended {
+            model_check_extended_formula_dirty(text, &g2, &ctx2)
+        } else {
+            model_check_formula_dirty(text, &g2)
+        }
+    }) {
         Err(p) => return Err(panic_fail(prefix, "model_check_formula_dirty on the instantiated network", &p, case)),
         Ok(Err(e)) => {
             return Err(fail(
@@ -85,12 +132,23 @@ pub fn check_colour(
 }
 
 fn check(case: &SemCase, net: &Net, f: &F) -> Verdict {
-    if !f.is_closed() || f.has_wild_or_domain() {
+    if !f.is_closed() {
         return Verdict::Discard("outside-C20-domain");
     }
+    let extended = f.has_wild_or_domain();
     let valid = net.valid_colours();
     let text = &case.formulas[0];
-    let result = call_ok!("C20", case, "model_check_formula_dirty", model_check_formula_dirty(text, &net.graph));
+    let result = if extended {
+        let sym = symbolic_context(net, &case.context);
+        call_ok!(
+            "C20",
+            case,
+            "model_check_extended_formula_dirty",
+            model_check_extended_formula_dirty(text, &net.graph, &sym)
+        )
+    } else {
+        call_ok!("C20", case, "model_check_formula_dirty", model_check_formula_dirty(text, &net.graph))
+    };
     // up to 3 colours chosen by the case
     let sels: Vec<u64> = case
         .extra
@@ -102,13 +160,14 @@ fn check(case: &SemCase, net: &Net, f: &F) -> Verdict {
     for sel in sels {
         let c = valid[(sel as usize) % valid.len()];
         let slice = net.slice(&result, c, 0);
-        if let Err(fl) = check_colour("C20", case, net, text, slice, c) {
+        if let Err(fl) = check_colour_ctx("C20", case, net, text, slice, c, extended) {
             return Verdict::Fail(fl);
         }
         slices.push(slice);
     }
     let mut classes = net_classes(net);
     classes.extend(formula_classes(f));
+    classes.push(if extended { "extended".into() } else { "plain".into() });
     let all_slices: Vec<u64> = sample_colours(net, 32).iter().map(|c| net.slice(&result, *c, 0)).collect();
     let differing = all_slices.iter().any(|s| *s != all_slices[0]);
     Verdict::Pass(CaseReport {
@@ -119,13 +178,71 @@ fn check(case: &SemCase, net: &Net, f: &F) -> Verdict {
     })
 }
 
+/// One colour of a bundled benchmark model (`aeon` = "bundled:<index>"): purely symbolic comparison.
+fn check_bundled(case: &SemCase) -> Verdict {
+    use biodivine_lib_param_bn::biodivine_std::traits::Set;
+    let idx: usize = case.aeon.trim_start_matches("bundled:").parse().unwrap_or(0);
+    let (name, bn) = match crate::bundled::load_model(idx) {
+        Ok(x) => x,
+        Err(_) => return Verdict::Discard("bundled-model-not-loadable"),
+    };
+    let g = match crate::bundled::graph_for(&bn, case.k) {
+        Ok(g) => g,
+        Err(_) => return Verdict::Discard("constraints-unsatisfiable"),
+    };
+    let text = &case.formulas[0];
+    // a valid colour inside a random parameter cube (or anywhere, if the cube has none)
+    let cube: crate::bundled::BigSet = serde_json::from_value(case.extra["colour_cube"].clone())
+        .unwrap_or(crate::bundled::BigSet { pieces: vec![], mode: 0 });
+    let mut only_params = cube.clone();
+    only_params.mode = 0;
+    for p in &mut only_params.pieces {
+        p.vars.clear();
+    }
+    let region = crate::bundled::build_big_set(&g, &only_params).colors();
+    let colour = if region.is_empty() { g.unit_colors().pick_singleton() } else { region.pick_singleton() };
+    let result = call_ok!("C20", case, "model_check_formula_dirty", model_check_formula_dirty(text, &g));
+    let witness = g.pick_witness(&colour);
+    let g2 = match get_extended_symbolic_graph(&witness, case.k) {
+        Ok(g) => g,
+        Err(e) => harness_error(&format!("witness of a bundled model has no graph: {e}")),
+    };
+    let r2 = call_ok!("C20", case, "model_check_formula_dirty", model_check_formula_dirty(text, &g2));
+    let slice = result.intersect_colors(&colour).vertices();
+    let other = match g.transfer_vertices_from(&r2.vertices(), &g2) {
+        Some(v) => v,
+        None => harness_error("cannot transfer the witness result by variable name"),
+    };
+    if slice != other {
+        return Verdict::Fail(fail(
+            "C20:slice-differs-from-instantiated-network",
+            format!(
+                "model {name}, `{text}`: the states of the parametrised result for the picked colour ({} states) differ from the result on the instantiated network ({} states)",
+                slice.approx_cardinality(),
+                other.approx_cardinality()
+            ),
+            case,
+        ));
+    }
+    // non-trivial: the result is not the same for every colour
+    let projected = result.vertices();
+    let nontrivial = !slice.is_empty() && g.unit_colors().approx_cardinality() > 1.5
+        && result != g.unit_colored_vertices().intersect_vertices(&projected);
+    Verdict::Pass(CaseReport {
+        nontrivial,
+        key: case.key(),
+        classes: vec![format!("model:{name}")],
+        sample: json!({"model": name, "formula": text}),
+    })
+}
+
 impl Property for C20 {
-    type Raw = (RawSem, Vec<u16>);
+    type Raw = (RawSem, Vec<u16>, bool);
     fn id(&self) -> &'static str {
         "C20"
     }
     fn rule(&self) -> String {
-        "random parametrised network (plus bundled benchmark models in the thorough tier) x closed plain formula x up to 3 random valid colours: states of the result for that colour == result on get_extended_symbolic_graph(pick_witness(colour)), compared state by state by variable name. Non-trivial: the network has >= 2 valid colours and the formula's slices differ between colours.".into()
+        "random parametrised network (plus bundled benchmark models: deterministic stage) x closed plain or extended formula (context sets of the instantiated network = the case's context sets restricted to that colour) x up to 3 random valid colours: states of the result for that colour == result on get_extended_symbolic_graph(pick_witness(colour)), compared state by state by variable name. Non-trivial: the network has >= 2 valid colours and the formula's slices differ between colours.".into()
     }
     fn assumptions(&self) -> Vec<String> {
         vec![
@@ -139,11 +256,12 @@ impl Property for C20 {
         (
             raw_sem(tier.pick(3, 4), 1..=1, 5, tier.pick(16, 22)),
             prop::collection::vec(any::<u16>(), 1..=3),
+            any::<bool>(),
         )
             .boxed()
     }
     fn check_raw(&self, raw: &Self::Raw) -> Verdict {
-        match resolve_sem(&raw.0, FCfg::PLAIN_WEAK) {
+        match resolve_sem(&raw.0, if raw.2 { FCfg::EXTENDED_WEAK } else { FCfg::PLAIN_WEAK }) {
             Err(r) => Verdict::Discard(r),
             Ok((mut case, fs, net)) => {
                 case.extra = json!({"colours": raw.1.iter().map(|x| *x as u64).collect::<Vec<_>>()});
@@ -152,6 +270,57 @@ impl Property for C20 {
         }
     }
     fn replay(&self, case: &Value) -> Verdict {
+        if case["aeon"].as_str().map(|a| a.starts_with("bundled:")).unwrap_or(false) {
+            return match SemCase::from_json(case) {
+                Ok(c) => check_bundled(&c),
+                Err(_) => Verdict::Discard("unreadable-case"),
+            };
+        }
         replay_with(case, |case, net, fs| check(case, net, &fs[0]))
+    }
+    fn extra_stages(&self, tier: Tier, seed: u64, stats: &mut Stats) -> Option<Failure> {
+        use crate::bundled::*;
+        // parametrised bundled models only
+        let models: Vec<usize> = tier.pick(vec![0, 2], vec![0, 1, 2, 3, 5, 6]);
+        let per_model = tier.pick(3, 20);
+        let failure: std::sync::Mutex<Option<Failure>> = std::sync::Mutex::new(None);
+        let reports: std::sync::Mutex<Vec<CaseReport>> = std::sync::Mutex::new(vec![]);
+        std::thread::scope(|scope| {
+            for m in models.iter().copied() {
+                let (failure, reports) = (&failure, &reports);
+                scope.spawn(move || {
+                    let Ok((_, bn)) = load_model(m) else { harness_error("bundled model not loadable") };
+                    let strat = (crate::gen::raw_f(4, 8), big_set());
+                    for (raw, cube) in sample_stream(&strat, mix(seed, 3000 + m as u64), per_model) {
+                        if failure.lock().unwrap().is_some() {
+                            return;
+                        }
+                        let f = bundled_formula(&raw, &bn);
+                        let case = SemCase {
+                            aeon: format!("bundled:{m}"),
+                            k: f.quant_depth() as u16,
+                            formulas: vec![f.canon()],
+                            context: Default::default(),
+                            extra: json!({"colour_cube": cube}),
+                        };
+                        match guard(|| check_bundled(&case)) {
+                            Ok(Verdict::Fail(fl)) => {
+                                failure.lock().unwrap().get_or_insert(fl);
+                                return;
+                            }
+                            Ok(Verdict::Pass(rep)) => reports.lock().unwrap().push(rep),
+                            Ok(Verdict::Discard(r)) => harness_error(&format!("bundled case discarded: {r}")),
+                            Err(p) => harness_error(&format!("panic in the harness on a bundled model: {p}")),
+                        }
+                    }
+                });
+            }
+        });
+        let reports = reports.into_inner().unwrap();
+        stats.stages.insert("bundled".into(), json!({"models": models, "cases_per_model": per_model, "cases": reports.len()}));
+        for r in reports {
+            stats.add(r);
+        }
+        failure.into_inner().unwrap()
     }
 }
